@@ -749,6 +749,57 @@ fn hyrax_case(ctx: &mut Ctx, rng: &mut ChaCha20Rng) {
 
 // =================================================================================== linear codes
 
+fn gcd(a: usize, b: usize) -> usize {
+    if b == 0 {
+        a
+    } else {
+        gcd(b, a % b)
+    }
+}
+
+/// A random non-zero vector orthogonal to `b` (and to `r` if given); None if the kernel is trivial.
+pub fn kernel_vector(b: &[LFr], r: Option<&[LFr]>, rng: &mut impl RngCore) -> Option<Vec<LFr>> {
+    let n = b.len();
+    let k = 1 + r.is_some() as usize;
+    if n <= k {
+        return None;
+    }
+    let mut d: Vec<LFr> = (0..n).map(|_| LFr::rand(rng)).collect();
+    match r {
+        None => {
+            // fix coordinate i with b[i] != 0
+            let i = (0..n).find(|&i| !b[i].is_zero())?;
+            let rest: LFr = (0..n).filter(|&j| j != i).map(|j| b[j] * d[j]).sum();
+            d[i] = -rest * b[i].inverse().unwrap();
+        }
+        Some(r) => {
+            // fix two coordinates (i, j) with non-singular 2x2 minor
+            let mut found = None;
+            'o: for i in 0..n {
+                for j in (i + 1)..n {
+                    if !(b[i] * r[j] - b[j] * r[i]).is_zero() {
+                        found = Some((i, j));
+                        break 'o;
+                    }
+                }
+            }
+            let (i, j) = found?;
+            let sb: LFr = (0..n).filter(|&x| x != i && x != j).map(|x| b[x] * d[x]).sum();
+            let sr: LFr = (0..n).filter(|&x| x != i && x != j).map(|x| r[x] * d[x]).sum();
+            let det = b[i] * r[j] - b[j] * r[i];
+            let inv = det.inverse().unwrap();
+            // b_i di + b_j dj = -sb ; r_i di + r_j dj = -sr
+            d[i] = (-sb * r[j] + sr * b[j]) * inv;
+            d[j] = (-sr * b[i] + sb * r[i]) * inv;
+        }
+    }
+    if d.iter().all(|x| x.is_zero()) {
+        return None;
+    }
+    debug_assert!(b.iter().zip(&d).map(|(x, y)| *x * y).sum::<LFr>().is_zero());
+    Some(d)
+}
+
 fn lin_ref<S, L>(ck: &CkOf<S>, cm: &MLinCommitment, z: &PtOf<S>, value: LFr, pf: &MLinProof<LFr>, sp: &mut Sp<LFr>) -> Result<bool, String>
 where
     S: Scheme<F = LFr>,
@@ -820,10 +871,12 @@ where
     CkOf<S>: LinCodeParametersInfo<MtParams, ColHasher<LFr>> + Clone,
 {
     let cfg = if S::KIND == Kind::Univariate {
-        let d = range(rng, 1, 300);
+        // a third of the cases beyond 380 coefficients: matrices with four and more rows
+        let d = if rng.next_u32() % 3 == 0 { range(rng, 381, 1500) } else { range(rng, 1, 300) };
         Cfg { max_degree: d, num_vars: None, supported_degree: d, supported_hiding: 0, enforced: None }
     } else {
-        Cfg { max_degree: 1, num_vars: Some(range(rng, 1, 8)), supported_degree: 1, supported_hiding: 0, enforced: None }
+        let nv = if rng.next_u32() % 3 == 0 { range(rng, 9, 11) } else { range(rng, 1, 8) };
+        Cfg { max_degree: 1, num_vars: Some(nv), supported_degree: 1, supported_hiding: 0, enforced: None }
     };
     let w = match make_world::<S>(&cfg, rng) {
         Ok(w) => w,
@@ -886,6 +939,38 @@ where
             let mut pf = pf0.clone();
             pf.opening.paths[j].leaf_index ^= 1;
             faults.push(("proof-path-leaf-index".into(), cm0.clone(), z.clone(), value, pf));
+            // an index OUTSIDE the codeword that is congruent to the queried position modulo the codeword length and
+            // modulo the (power-of-two) tree width: reduced comparisons and the tree walk cannot tell it from q_j
+            let n_ext = cm0.metadata.n_ext_cols;
+            let width = n_ext.next_power_of_two();
+            let step = n_ext / gcd(n_ext, width) * width;
+            let mut pf = pf0.clone();
+            pf.opening.paths[j].leaf_index += step * range(rng, 1, 3);
+            faults.push(("proof-path-leaf-index-aliased".into(), cm0.clone(), z.clone(), value, pf));
+            let mut pf = pf0.clone();
+            pf.opening.paths[j].leaf_index += n_ext;
+            faults.push(("proof-path-leaf-index-plus-codeword-length".into(), cm0.clone(), z.clone(), value, pf));
+            // a position the transcript opens twice: the later copy of the column is shifted inside the kernel of the
+            // verifier's linear tests (row combination b, and r with well-formedness), its path left alone
+            let pos: Vec<usize> = pf0.opening.paths.iter().map(|p| p.leaf_index).collect();
+            let dup = (0..pos.len()).find(|&j2| pos[..j2].contains(&pos[j2]));
+            let (_, bvec) = L::tensor(&z, cm0.metadata.n_cols, cm0.metadata.n_rows);
+            let rvec: Option<Vec<LFr>> = if w.ck.check_well_formedness() {
+                let mut sp = crate::probe::sponge::<LFr>(&pre);
+                let mut rb = Vec::new();
+                cm0.root.serialize_compressed(&mut rb).unwrap();
+                sp.absorb(&rb);
+                Some(sp.squeeze_field_elements::<LFr>(cm0.metadata.n_rows))
+            } else {
+                None
+            };
+            if let (Some(j2), Some(delta)) = (dup, kernel_vector(&bvec, rvec.as_deref(), rng)) {
+                let mut pf = pf0.clone();
+                for (x, d) in pf.opening.columns[j2].iter_mut().zip(&delta) {
+                    *x += *d;
+                }
+                faults.push(("proof-column-kernel-shift-at-repeated-position".into(), cm0.clone(), z.clone(), value, pf));
+            }
         }
     }
     // paths of OTHER leaves that carry an identical column: only the leaf-index test can tell them apart.
